@@ -33,9 +33,10 @@ class ModuleInfo:
                 self.classes[prefix + node.name] = node
                 attrs = {}
                 for sub in node.body:
-                    if isinstance(sub, ast.Assign) and len(sub.targets) == 1 \
-                            and isinstance(sub.targets[0], ast.Name):
-                        attrs[sub.targets[0].id] = sub.value
+                    if isinstance(sub, ast.Assign):
+                        for t in sub.targets:          # also  a = b = None
+                            if isinstance(t, ast.Name):
+                                attrs[t.id] = sub.value
                 self.class_attrs[prefix + node.name] = attrs
                 self._index(node.body, prefix + node.name + '.')
             elif prefix == '':
